@@ -785,6 +785,10 @@ func (c *Conn) advanceFrame() (int, error) {
 
 	if c.readRemaining > 0 {
 		if _, err := io.CopyN(io.Discard, c.br, c.readRemaining); err != nil {
+			if err == io.EOF {
+				// the stream ended inside the frame the application left half read
+				err = errUnexpectedEOF
+			}
 			return noFrame, err
 		}
 	}
